@@ -319,6 +319,8 @@ def oracle2(t):
     root = t["root"]
     if not is_group(root):
         return "ValueError", "no-group-at-root"
+    if t.get("corrupt_doc"):
+        return "ValueError", "corrupt-zarr-document"   # not a readable zarr hierarchy
     m = meta_parse(t["attrs"])
     if m["k"] != "ok":
         return "ValueError", "metadata-" + m["k"]
@@ -458,6 +460,14 @@ def build(t, tmpdir=None, data=False):
                 del g["nodes/ids"]
                 g["nodes"].create_array("ids", shape=tuple(nid["a"][1]), dtype=np.dtype(nid["a"][0]).newbyteorder(">"),
                                         chunks=tuple(max(1, x) for x in nid["a"][1]) or "auto")
+    if t.get("corrupt_doc") and mem is not None and kind == "memory":
+        from zarr.core.buffer.cpu import Buffer
+
+        path, payload = t["corrupt_doc"]
+        key = (path + "/" if path else "") + ("zarr.json" if fmt == 3 else (".zarray" if is_array(get_path(root, path.split("/") if path else [])) else ".zgroup"))
+        if key not in mem._store_dict:
+            raise KeyError(key)
+        mem._store_dict[key] = Buffer.from_bytes(payload.encode())
     return handle(mem)
 
 
@@ -880,6 +890,19 @@ def store_variants():
     return out
 
 
+def corrupt_documents():
+    """exploration outside the abstract store: the zarr metadata document of one node of a
+    conformant store is replaced by something that is not such a document"""
+    out = []
+    root, attrs = bases()["typical"]
+    for fmt in (2, 3):
+        for path in ("", "nodes", "nodes/ids", "nodes/props", "nodes/props/t", "nodes/props/t/values", "edges/props/c/missing"):
+            for lab, payload in (("garbage", "{not json"), ("empty-object", "{}"), ("list", "[1, 2]"), ("null", "null"),
+                                 ("number", "5"), ("empty", "")):
+                out.append((f"corrupt-doc|{path or 'root'}|{lab}", target(root, attrs, fmt, corrupt_doc=[path, payload], reader=False)))
+    return out
+
+
 def random_conformant(rng):
     """random conformant store (all conformant variants: dtypes, ranks, masks, var-length, axes)"""
     n, e = rng.choice((0, 1, 2, 5)), rng.choice((0, 1, 3))
@@ -969,6 +992,9 @@ def run(ck: common.Check):
     sv = store_variants()
     cases += sv
     ck.extra["store_variants"] = len(sv)
+    cd = corrupt_documents()
+    cases += cd
+    ck.extra["corrupt_zarr_documents(exploration, no model)"] = len(cd)
     ck.extra["single_fault_catalogue"] = len(cat)
     npairs = 800 if ck.quick else 24000
     cases += fault_pairs(ck.rng, npairs)
@@ -1004,7 +1030,7 @@ def run(ck: common.Check):
             mine = meta_parse(t["attrs"])
             if mine != im["meta"]:
                 ck.corr_broken("C04:metadata-oracle", {"label": label, "attrs": t["attrs"]}, im["meta"], mine)
-        if model is not None:
+        if model is not None and not t.get("corrupt_doc"):
             mo = model[idx]
             if "err" in mo:
                 ck.corr_broken("C04:driver", {"label": label, "target": t}, im, mo)
